@@ -11,9 +11,19 @@
                               `ok nmatop=2 | throw user:<k> info=<i> niter=<j> nmatop=<m>`   (thrown inside compute), or
                               `ok nmatop=2 | ret=… info=… niter=… nmatop=…`        (fault index beyond the run: not hit);
             then the clean run in the format of Driver/C05 (`I`, `C`, `E`, `V nev`, `F` segments).
+
+  request:  genf <variant> <n> <nev> <ncv> <eps23> <near0> <eps> <sigma> <n*n operator matrix, row-major>
+                 <sel> <maxit> <tol> <sort> <n bits of v0> <nf> <k_1> … <k_nf>
+     the same history on the GENERAL family (variant 0 = GenEigsSolver, 1 = GenEigsRealShiftSolver with the matrix (A - sigma I)^-1),
+     answered by `FaultOpGen.genKernF` (= `GenSolver.genKern` with every operator application of `Arnoldi::init`,
+     `Arnoldi::factorize_from` and the restart's re-factorization routed through the failing operator).
+  response: faulted pairs as above; then the clean run in the format of Driver/C02 (`I`, `C`, `E`, `V nev`, `F` segments; complex
+            eigenvalues bit-exact, eigenvectors soft).
 -/
 import SpectraVerif.Driver.C05
+import SpectraVerif.Driver.C02
 import SpectraVerif.Model.FaultOp
+import SpectraVerif.Model.FaultOpGen
 
 namespace Drv.C14
 open Lin Orch
@@ -31,7 +41,56 @@ def faultedPair (K : Kern (Arnoldi.State Float) Float Float (Vec Float) (Vec Flo
       | .ok k => s!"ret={k} info={r.st.info.code} niter={r.st.niter} nmatop={r.st.nmatop}"
       | .error x => s!"throw {x.show} info={r.st.info.code} niter={r.st.niter} nmatop={r.st.nmatop}"])
 
+def faultedPairG (K : Drv.C02.GKern) (c : Cfg) (s : Drv.C02.GSt) (v : Vec Float) (sel : Int) (maxit : Nat) (tol : Float) (sort : Int) :
+    Drv.C02.GSt × List String :=
+  let (s1, e) := Orch.init K c v s
+  match e with
+  | some x => (s1, [s!"throw {x.show} nmatop={s1.nmatop}"])
+  | none =>
+    let r := Orch.compute K c sel maxit tol sort s1
+    (r.st, [s!"ok nmatop={s1.nmatop}", match r.out with
+      | .ok k => s!"ret={k} info={r.st.info.code} niter={r.st.niter} nmatop={r.st.nmatop}"
+      | .error x => s!"throw {x.show} info={r.st.info.code} niter={r.st.niter} nmatop={r.st.nmatop}"])
+
+def handleGen : List String → Option String
+  | variant :: n :: nev :: ncv :: eps23 :: near0 :: eps :: sigma :: rest => do
+      let variant ← parseNat? variant; let n ← parseNat? n; let nev ← parseNat? nev; let ncv ← parseNat? ncv
+      let eps23 ← ofBits? eps23; let near0 ← ofBits? near0; let eps ← ofBits? eps; let sigma ← ofBits? sigma
+      let (mt, rest) ← takeN? (n * n) rest
+      let a ← floatArr? mt
+      match rest with
+      | selS :: maxitS :: tolS :: sortS :: rest =>
+        let sel ← parseInt? selS; let maxit ← parseNat? maxitS; let tol ← ofBits? tolS; let sort ← parseInt? sortS
+        let (vt, rest) ← takeN? n rest
+        let v ← floatArr? vt
+        match rest with
+        | nfS :: ks =>
+          let nf ← parseNat? nfS
+          let ks ← ks.mapM parseNat?
+          if ks.length ≠ nf then none else
+          let A := Arnoldi.rowMajorOp n a
+          let op : Arnoldi.Op Float := { n := n, A := A, B := none }
+          let c : Cfg := ⟨n, nev, ncv⟩
+          let back : Drv.C02.CF → Drv.C02.CF := if variant = 1 then GenSolver.realShiftBack sigma else id
+          let s0 : Drv.C02.GSt := Orch.construct (Arnoldi.State.mk0 n ncv near0 eps)
+          let (s1, outs) := ks.foldl (fun (acc : Drv.C02.GSt × List String) k =>
+              let KF := FaultOpGen.genKernF op (FaultOp.faultAt A k (.user k)) c eps23 back
+              let (s', o) := faultedPairG KF c acc.1 v sel maxit tol sort
+              (s', acc.2 ++ o)) (s0, [])
+          -- the clean run goes through the SAME fault-aware kernels with an operator that never fails
+          let K0 := FaultOpGen.genKernF op (FaultOp.never A) c eps23 back
+          let x : Drv.C02.Ctx := { K := K0, c := c, n := n, comp := fun sel maxit tol sort s => Orch.compute K0 c sel maxit tol sort s, extra := "" }
+          let calls : List (List String) := [("I" :: vt), ["C", selS, maxitS, tolS, sortS], ["E"], ["V", toString nev], ["F"]]
+          let (_, outs2) ← calls.foldlM (fun (acc : Drv.C02.GSt × List String) call => do
+              let (s', o) ← Drv.C02.runCall x acc.1 call
+              pure (s', acc.2 ++ [o])) (s1, outs)
+          pure (String.intercalate " | " outs2)
+        | _ => none
+      | _ => none
+  | _ => none
+
 def handle : List String → Option String
+  | "genf" :: rest => handleGen rest
   | "hermf" :: variant :: n :: nev :: ncv :: eps23 :: near0 :: eps :: sigma :: rest => do
       let variant ← parseNat? variant; let n ← parseNat? n; let nev ← parseNat? nev; let ncv ← parseNat? ncv
       let eps23 ← ofBits? eps23; let near0 ← ofBits? near0; let eps ← ofBits? eps; let sigma ← ofBits? sigma
